@@ -19,7 +19,9 @@ The transaction.  Signature checking itself (ECDSA, address derivation) belongs 
 every signature the transaction carries, the key whose valid signature it is (`none` = it does not verify).  The
 transactions are otherwise well formed (amounts, read/write sets as produced by a pre-execution): the remaining stages
 of `ImmediateVerifyTx` (`verifyContractTxAmount`, `verifyTxRWSets`) accept them, which the correspondence run checks
-on the real node for every generated transaction.
+on the real node for every generated transaction.  One exception, handled by the driver and not part of this model: a
+storage read error on a key the transaction itself declares as read makes `verifyTxRWSets` fail (rejecting more, never
+less).
 -/
 namespace XV.Acl
 
